@@ -318,6 +318,9 @@ def run(ctx):
             ok = all(C.base(x) == "success" for x in okb) and bool(okb) and bool(erb) and all(C.base(x) == "set_exit_code" for x in erb)
             for s in g.nodes("success"):
                 ok = ok and all(C.base(x) == "set_exit_code" for x in g.succ(s, "0")) and bool(g.succ(s, "0")) and all(x.startswith("RET(") for x in g.succ(s, "else"))
+        fl = [b for b, t in rc.calls() if t.j.get("callee_name") == "flush_output"]
+        sb = [b for b, t in rc.calls() if t.j.get("callee_name") == "status"]
+        ctx.ob("R3", "output-flushed-before-run", bool(fl) and bool(sb) and all(any(rc.dominates(f_, s_) for f_ in fl) for s_ in sb), "run_command must flush find's own output (MatcherIO::flush_output) before it starts the batch, so that the command's output follows what earlier actions printed", fn=rc, how="dominance")
         ctx.ob("R3", "run_command-failure=>exit-code", ok, "run_command: a failing invocation and an invocation that cannot be started must both set a non-zero exit code; events: %s" % g.fmt(), fn=rc, how="event graph")
         for b, t in rc.calls():
             if role(t) == "set_exit_code":
